@@ -19,6 +19,8 @@ mod charstring;
 mod stress;
 #[path = "c02/sweep.rs"]
 mod sweep;
+#[path = "c02/drawmut.rs"]
+mod drawmut;
 
 use fv_harness::common::*;
 use read_fonts::types::{F2Dot14, GlyphId, Tag};
@@ -2193,6 +2195,10 @@ fn child_request(line: &str) -> String {
         }
         "stress" => stress::child(&t[1..]),
         "hintmap" => stress::hintmap_child(&t[1..]),
+        "drawmut" | "iftstruct" => match catch(|| drawmut::child(t[0], &t[1..])) {
+            Ok(r) => r,
+            Err(m) => format!("panic at=[{}] {}", last_loc(), m.replace('\n', " ")),
+        },
         "ttsweep" | "metamut" | "fvarsyn" => match catch(|| sweep::child(t[0], &t[1..])) {
             Ok(r) => r,
             Err(m) => format!("panic at=[{}] {}", last_loc(), m.replace('\n', " ")),
@@ -2722,9 +2728,13 @@ fn stress_jobs(rng: &mut Rng, thorough: bool) -> Vec<stress::Job> {
     sj.extend(stress::iftapply_jobs(thorough));
     sj.extend(stress::gsubnest_jobs(thorough));
     sj.extend(stress::cfffd_jobs(thorough));
+    sj.extend(stress::cffpoints_jobs());
+    sj.extend(stress::hbcontour_jobs());
     sj.extend(sweep::ttsweep_jobs(thorough));
     sj.extend(sweep::metamut_jobs(thorough));
     sj.extend(sweep::fvarsyn_jobs());
+    sj.extend(drawmut::drawmut_jobs(thorough));
+    sj.extend(drawmut::iftstruct_jobs());
     sj
 }
 
